@@ -194,6 +194,8 @@ def end_protocol(fn, env, loop, use):
 def check(run):
     from . import C08 as _C08
     _C08.check_tables_append(run, "R18.6")      # merged blocks keep their tables entry for entry
+    from . import C05 as _C05
+    _C05.check_block_protocol(run, "R18.8")     # every block of an input reaches the tools: read_block's end-of-blocks protocol
     facts = run.facts
     mg = tool_main(facts, "cdns_merge.cpp", "R18.1")
     env = Env(mg["body"])
